@@ -29,6 +29,7 @@ def check(ctx):
     repo = ctx.repo
     from . import generic as _gen
     _gen.language_traps(ctx, _gen.anchor_functions(repo, "C07"), "the property holds for every input, on every call")
+    _gen.argument_as_given(ctx, repo.fn("dataiter.aggregate.quantile"), "q", [0, 0.0, 1], "quantile(q) is the textbook quantile for every 0 <= q <= 1")
     _gen.raises_inside_domain(ctx, repo.fn("dataiter.aggregate.quantile"), "q", [0, 0.25, 0.5, 1, 0.0, 1.0], "a quantile NumPy accepts (0 <= q <= 1)",
                               "quantile returns the documented statistic for every q in [0, 1]")
     _gen.bool_mask_dtype(ctx, _gen.module_functions(repo, "dataiter.vector", "dataiter.aggregate"),
